@@ -48,7 +48,7 @@ TChtimes == Ev.a = "Chtimes" /\ ((Accept(CanAttr(Ev.p), tree, {Ev.p}, {"mt", "at
 \* macro calls whose net effect on the universe is nil: Churn creates k temporary entries in a
 \* directory (growing it past one block) and removes them again; BigFile writes a multi-block
 \* file outside the universe in pieces, reads it back live and after re-opening (bigok), removes it
-TChurn   == Ev.a = "Churn"   /\ Ev.res = "ok" /\ Clean /\ Api = tree /\ Api2 = tree /\ AttrFrame({Ev.p}, Times) /\ attr' = At /\ UNCHANGED <<tree, out>>
+TChurn   == Ev.a \in {"Churn", "Churn2"} /\ Ev.res = "ok" /\ Clean /\ Api = tree /\ Api2 = tree /\ AttrFrame({Ev.p}, Times) /\ attr' = At /\ UNCHANGED <<tree, out>>
 TBigFile == Ev.a = "BigFile" /\ Ev.res = "ok" /\ Clean /\ Ev.bigok /\ Api = tree /\ Api2 = tree /\ AttrFrame({}, {}) /\ UNCHANGED vars
 Match == Ev.panic = "" /\ (TChurn \/ TBigFile \/ TMkdir \/ TCreate \/ TWrite \/ TAppend \/ TSymlink \/ TRemove \/ TChmod \/ TChown \/ TChtimes)
 InRange  == l <= Len(Trace)
